@@ -337,95 +337,25 @@ fn header_s(h: &gimli::LineProgramHeader<R>) -> String {
 // direct oracles on the implementation's own rows
 // ---------------------------------------------------------------------------------------------
 
-/// number of DW_LNE_end_sequence instructions the public decoder sees in the program
-fn count_end_instrs(h: &gimli::LineProgramHeader<R>) -> usize {
-    let mut it = h.instructions();
-    let mut n = 0;
-    let mut guard = 0usize;
-    while let Ok(Some(i)) = it.next_instruction(h) {
-        if matches!(i, LineInstruction::EndSequence) {
-            n += 1;
-        }
-        guard += 1;
-        if guard > 1 << 20 {
-            break;
-        }
-    }
-    n
-}
-
-/// failure classes that are recorded findings (known_findings.d/C04.json); an unlisted class
-/// found on the same input wins, so that a recorded finding cannot mask a new one
-const KNOWN_CLASSES: &[&str] = &["mono-suppressed-end", "seq-bounds-suppressed-end"];
-
+/// the first oracle finding is the one reported (no class is exempt any more: the former
+/// findings C04-1 / C04-2 are repaired in the crate and count as plain violations again)
 fn pick(findings: Vec<String>) -> Option<String> {
-    let known = |s: &String| KNOWN_CLASSES.contains(&s.split(' ').next().unwrap_or(""));
-    findings.iter().find(|s| !known(s)).cloned().or_else(|| findings.into_iter().next())
-}
-
-/// how to re-run a prefix / slice of the program under the same header (P-based ops only)
-struct Rebuild<'a> {
-    p: &'a P,
-    prog: &'a [u8],
-}
-
-impl Rebuild<'_> {
-    fn rows_of(&self, prog: &[u8]) -> usize {
-        let sec = build_section(self.p, prog);
-        let dl = DebugLine::new(&sec, self.p.endian());
-        let Ok(program) = dl.program(DebugLineOffset(0), self.p.asz as u8, None, None) else { return 0 };
-        let mut rows = program.rows();
-        let evs = collect_rows!(rows, prog.len() + 2);
-        evs.iter().filter(|e| matches!(e, Ev::Row(_))).count()
-    }
-    /// end offset of the instruction that produced emitted row `k` (0-based)
-    fn end_offset_of_row(&self, k: usize) -> Option<usize> {
-        (0..=self.prog.len()).find(|l| self.rows_of(&self.prog[..*l]) >= k + 1)
-    }
-    /// is there a DW_LNE_end_sequence *instruction* strictly between the instructions that
-    /// produced emitted rows `k-1` and `k`? (then its row was suppressed)
-    fn end_instr_between(&self, k: usize) -> bool {
-        let (Some(a), Some(b)) = (self.end_offset_of_row(k - 1), self.end_offset_of_row(k)) else { return false };
-        let sec = build_section(self.p, &self.prog[a..b]);
-        let dl = DebugLine::new(&sec, self.p.endian());
-        let Ok(program) = dl.program(DebugLineOffset(0), self.p.asz as u8, None, None) else { return false };
-        let h = program.header();
-        let mut it = h.instructions();
-        let mut instrs = Vec::new();
-        while let Ok(Some(i)) = it.next_instruction(h) {
-            instrs.push(matches!(i, LineInstruction::EndSequence));
-            if instrs.len() > 1 << 16 {
-                break;
-            }
-        }
-        // the last instruction is the one that produced row k
-        instrs.pop();
-        instrs.iter().any(|e| *e)
-    }
+    findings.into_iter().next()
 }
 
 /// "For any input whatsoever, row addresses never decrease within a sequence and never exceed
-/// the address size." A sequence ends with a row that has end_sequence set.
-fn oracle_mono(evs: &[Ev], asz: u64, end_instrs: usize, rb: Option<&Rebuild>, out: &mut Vec<String>) {
+/// the address size." A sequence ends with a returned row that has end_sequence set.
+fn oracle_mono(evs: &[Ev], asz: u64, out: &mut Vec<String>) {
     let mask: u64 = if asz >= 8 { u64::MAX } else { (1u64 << (8 * asz)) - 1 };
     let rows: Vec<&RowV> = evs.iter().filter_map(|e| if let Ev::Row(r) = e { Some(r) } else { None }).collect();
-    let end_rows = rows.iter().filter(|r| r.end()).count();
-    let mut reported = 0;
     for (k, r) in rows.iter().enumerate() {
         if r.address > mask {
             out.push(format!("addr-exceeds-size {} > {}", r.address, mask));
             return;
         }
-        if k > 0 && !rows[k - 1].end() && r.address < rows[k - 1].address && reported < 4 {
-            reported += 1;
-            // an end_sequence instruction that produced no row (its row was suppressed as a
-            // tombstone) is the one explanation the implementation has for a silent reset
-            let suppressed = match rb {
-                Some(rb) => rb.end_instr_between(k),
-                None => end_instrs > end_rows,
-            };
-            let class = if suppressed { "mono-suppressed-end" } else { "mono" };
-            out.push(format!("{class} {} after {}", r.address, rows[k - 1].address));
+        if k > 0 && !rows[k - 1].end() && r.address < rows[k - 1].address {
+            out.push(format!("mono {} after {}", r.address, rows[k - 1].address));
+            return;
         }
     }
 }
@@ -439,7 +369,7 @@ struct SeqV {
 /// "Splitting a program into sequences and resuming any sequence yields exactly the rows a
 /// straight run yields for it, and each sequence's reported address bounds are its first and
 /// end addresses."
-fn oracle_seqs(straight: &[Ev], seqs: &[SeqV], mono_known: bool, out: &mut Vec<String>) {
+fn oracle_seqs(straight: &[Ev], seqs: &[SeqV], out: &mut Vec<String>) {
     // sequences() succeeded => the straight run had no error either
     if straight.iter().any(|e| !matches!(e, Ev::Row(_))) {
         out.push("seq-ok-but-rows-err".into());
@@ -474,8 +404,7 @@ fn oracle_seqs(straight: &[Ev], seqs: &[SeqV], mono_known: bool, out: &mut Vec<S
             }
         } else if s.start > s.end {
             // only possible when the rows themselves go backwards (reported by the `mono` oracle)
-            let class = if mono_known { "seq-bounds-suppressed-end" } else { "seq-bounds" };
-            out.push(format!("{class} start {} > end {}", s.start, s.end));
+            out.push(format!("seq-bounds start {} > end {}", s.start, s.end));
         }
         got.extend(rs);
     }
@@ -492,14 +421,12 @@ fn with_oracle(s: String, o: Option<String>) -> String {
 }
 
 /// rows + sequences of one parsed program; returns (events, seq text, oracle findings)
-fn run_all(prog: gimli::IncompleteLineProgram<R>, cap: usize, rb: Option<&Rebuild>) -> (Vec<Ev>, String, Vec<String>) {
+fn run_all(prog: gimli::IncompleteLineProgram<R>, cap: usize) -> (Vec<Ev>, String, Vec<String>) {
     let asz = prog.header().address_size() as u64;
-    let end_instrs = count_end_instrs(prog.header());
     let mut rows = prog.clone().rows();
     let evs = collect_rows!(rows, cap);
     let mut o = Vec::new();
-    oracle_mono(&evs, asz, end_instrs, rb, &mut o);
-    let mono_known = !o.is_empty() && o.iter().all(|s| s.starts_with("mono-suppressed-end"));
+    oracle_mono(&evs, asz, &mut o);
     let seq_txt = match prog.sequences() {
         Err(e) => {
             if !evs.iter().any(|e| matches!(e, Ev::Err(_))) {
@@ -514,7 +441,7 @@ fn run_all(prog: gimli::IncompleteLineProgram<R>, cap: usize, rb: Option<&Rebuil
                 let evs = collect_rows!(r, cap);
                 sv.push(SeqV { start: s.start, end: s.end, evs });
             }
-            oracle_seqs(&evs, &sv, mono_known, &mut o);
+            oracle_seqs(&evs, &sv, &mut o);
             let mut t = vec![format!("ok {}", sv.len())];
             for s in &sv {
                 t.push(format!("S:{},{} {}", s.start, s.end, evs_s(&s.evs)));
@@ -1126,8 +1053,7 @@ pub fn handle(op: &str, a: &[&str]) -> Option<String> {
             if program.header().raw_program_buf().slice() != &prog[..] {
                 o = Some("hdr-program-buf".to_string());
             }
-            let rb = Rebuild { p: &p, prog: &prog };
-            let (evs, seq_txt, o2) = run_all(program, prog.len() + 2, Some(&rb));
+            let (evs, seq_txt, o2) = run_all(program, prog.len() + 2);
             let o = o.or(pick(o2));
             if op == "line-rows" {
                 Some(with_oracle(format!("ok {}", evs_s(&evs)), o))
@@ -1213,8 +1139,7 @@ pub fn handle(op: &str, a: &[&str]) -> Option<String> {
                 Ok(x) => x,
                 Err(e) => return Some(format!("err {}", rerr(&e))),
             };
-            let rb = Rebuild { p: &p, prog: &prog };
-            let (evs, _, mut o) = run_all(program, prog.len() + 2, Some(&rb));
+            let (evs, _, mut o) = run_all(program, prog.len() + 2);
             if is.iter().all(|i| encodable(&p, i)) {
                 if let Some(want) = naive_machine(&p, &is) {
                     let got: Vec<Ev> = want.into_iter().map(Ev::Row).collect();
@@ -1319,7 +1244,7 @@ pub fn handle(op: &str, a: &[&str]) -> Option<String> {
             let mut rows = program.clone().rows();
             let _ = collect_rows!(rows, cap);
             let files = list_s(rows.header().file_names(), file_s);
-            let (evs, seq_txt, o) = run_all(program, cap, None);
+            let (evs, seq_txt, o) = run_all(program, cap);
             Some(with_oracle(format!("ok {ver} {hasz} {} / {seq_txt} / {files}", evs_s(&evs)), pick(o)))
         }
         _ => None,
